@@ -48,7 +48,18 @@ def universe():
     return u
 
 
-def build(desc, name):
+def build(desc, name, subclass=False):
+    if subclass:
+        # instances of EMPTY user subclasses (class MyWormWheel(WormWheel): pass): same verdicts and post-conditions
+        from gmc.sim import user_subclass
+        g = globals()
+        saved = {n: g[n] for n in ('DCMotor', 'Flywheel', 'SpurGear', 'HelicalGear', 'WormGear', 'WormWheel')}
+        try:
+            for n, c in saved.items():
+                g[n] = user_subclass(c)
+            return build(desc, name)
+        finally:
+            g.update(saved)
     k = desc[0]
     if k == 'M':
         return DCMotor(name=name, inertia_moment=J1, no_load_speed=AngularSpeed(1000, 'rpm'), maximum_torque=Torque(1, 'Nm'))
@@ -321,17 +332,17 @@ def frictions(desc_worm):
     return [-0.1, 0, 0.5 * fs, 0.98 * fs, 1.02 * fs, min(1.0, 2 * fs), 1, 1.1, ['np', 0.5 * fs], ['np', min(1.0, 1.5 * fs)], ['nan']]
 
 
-def check_one_step(acc, ia, ib, func, param, U):
+def check_one_step(acc, ia, ib, func, param, U, subclass=False):
     da, db = U[ia], U[ib]
     same = ia == ib
-    a = build(da, 'a')
-    b = a if same else build(db, 'b')
+    a = build(da, 'a', subclass)
+    b = a if same else build(db, 'b', subclass)
     ids = {id(a): 'master', id(b): 'slave'}
     before_a, before_b = public_snapshot(a, ids), public_snapshot(b, ids)
-    case = {'kind': 'step', 'a': ia, 'b': ib, 'func': func, 'param': param}
+    case = {'kind': 'step', 'a': ia, 'b': ib, 'func': func, 'param': param, 'subclass': subclass}
     acc.transitions += 1
     outcome = call(func, a, b, param)
-    judge(acc, case, func, da, db, a, b, param, before_a, before_b, ids, outcome, 'C10/step')
+    judge(acc, case, func, da, db, a, b, param, before_a, before_b, ids, outcome, 'C10/step' + ('/user-subclasses' if subclass else ''))
 
 
 def check_dropped_master(acc, ia, ib, func, param, U):
@@ -488,6 +499,8 @@ def run_shard(shard, tier):
             acc.nstates += 1
             check_dropped_master(acc, ia, ib, 'joint', None, U)
             check_dropped_master(acc, ia, ib, 'gear', 0.9, U)
+            check_one_step(acc, ia, ib, 'joint', None, U, subclass=True)
+            check_one_step(acc, ia, ib, 'gear', 0.9, U, subclass=True)
             worm = U[ia] if U[ia][0] == 'Wg' else (U[ib] if U[ib][0] == 'Wg' else None)
             fr = frictions(worm) if worm else [0.1, 1.1, 'x']
             for f in fr:
@@ -495,6 +508,8 @@ def run_shard(shard, tier):
                 acc.nstates += 1
             if worm:
                 check_dropped_master(acc, ia, ib, 'worm', fr[2], U)
+                check_one_step(acc, ia, ib, 'worm', fr[2], U, subclass=True)
+                check_one_step(acc, ia, ib, 'worm', fr[4], U, subclass=True)
         acc.cases += acc.nstates
         acc.executions += acc.nstates
         acc.sample({'mode': 'one step', 'master': U[ia], 'slave': U[-1], 'functions': FUNCS, 'efficiencies': EFFS})
@@ -519,7 +534,7 @@ def replay(case):
         check_dropped_master(acc, case['a'], case['b'], case['func'], case['param'], universe())
         return acc.violations
     if case.get('kind') == 'step':
-        check_one_step(acc, case['a'], case['b'], case['func'], case['param'], universe())
+        check_one_step(acc, case['a'], case['b'], case['func'], case['param'], universe(), subclass=case.get('subclass', False))
     elif case.get('kind') == 'hist':
         replay_history(case['history'], acc)
     else:
